@@ -90,6 +90,13 @@ for fn, nm in ((1, 'strcmp_s'), (2, 'strcasecmp_s'), (3, 'strcmpfld_s'), (4, 'st
       enforce='_%s_chk' % nm, functions=['_%s_chk' % nm], sliced=False, timeout=600, fallback='B.q.%s' % nm,
       note='two separate exact-fit objects of symbolic size, dmax any 64-bit value, object sizes known or unknown to the library; answer stated at index 0 (strcmpfld_s: result 0 complete)')
 
+for fn, nm in ((1, 'strspn_s'), (2, 'strcspn_s'), (3, 'strpbrk_s')):
+    src = 'src/extstr/%s.c' % nm
+    J('A.%s' % nm, ['C10', 'C02', 'C05', 'C01'], 'A', 'contracts/extstr/span2.spec.c',
+      defines=['FN=%d' % fn], sources=[src], overlays={src: 'contracts/extstr/span2_%s.loops' % nm},
+      enforce='_%s_chk' % nm, functions=['_%s_chk' % nm], sliced=False, timeout=600, fallback='B.q.%s' % nm,
+      note='two NESTED loops under contract; two separate exact-fit objects of symbolic size, dmax / slen any 64-bit value, object sizes known or unknown to the library')
+
 for fn, nm in ((1, 'timingsafe_bcmp'), (2, 'timingsafe_memcmp')):
     src = 'src/extmem/%s.c' % nm
     J('A.%s' % nm, ['C19', 'C02', 'C05', 'C01'], 'A', 'contracts/extmem/timingsafe.spec.c',
